@@ -110,6 +110,8 @@ def build_wrapper(vz, base, layer):
         fn = kw.pop('noise', 'PLUS1')
         noise = {'PLUS1': (lambda v: v + 1.0), 'IDENTITY': (lambda v: v), 'DOUBLE': (lambda v: 2.0 * v)}[fn]
         return cls(base, noise)
+    if name == 'NumpyExperimenter':
+        return cls(lambda x: float(np.sum(x)), base.problem_statement())
     if name == 'NoisyExperimenter.from_type':
         return mod.NoisyExperimenter.from_type(base, kw['noise_type'], seed=kw.get('seed'))
     if name == 'SparseExperimenter':
@@ -222,7 +224,14 @@ def main():
             runs = []
             for _ in range(2):
                 base = make_scripted_base(vz, experimenter_lib, sc['base'], [])
-                w = noisy_experimenter.NoisyExperimenter.from_type(base, sc['noise_type'], seed=sc['seed'])
+                if sc.get('via') == 'factory':
+                    from vizier._src.benchmarks.experimenters import experimenter_factory as ef
+                    fac = ef.SingleObjectiveExperimenterFactory(base_factory=(lambda base=base: base), noise_type=sc['noise_type'], noise_seed=sc['seed'])
+                    w = fac()
+                elif sc.get('via') == 'create_noise_fn':
+                    w = noisy_experimenter.NoisyExperimenter(base, noisy_experimenter._create_noise_fn(sc['noise_type'], dimension=1, seed=sc['seed']))
+                else:
+                    w = noisy_experimenter.NoisyExperimenter.from_type(base, sc['noise_type'], seed=sc['seed'])
                 ts = [vz.Trial(id=i + 1, parameters=dict(t['params'])) for i, t in enumerate(sc['batch'])]
                 w.evaluate(ts)
                 w.evaluate(ts)
